@@ -162,6 +162,18 @@ def _check_try_scope(ctx, rep, fn, tr):
     if not called:
         rep.violated('R19.1', fn, 'try', 'the try block no longer contains the invocation of the user callable', tr)
         return
+    # the policy handler is the only one that deals with what the user callable raises
+    for h in tr.handlers:
+        if handler_types(h) & {'Exception', 'BaseException'} and _uses_name(h, 'failonerror'):
+            break           # handlers after the policy handler are unreachable for Exception subclasses
+        reraises = any(isinstance(x, ast.Raise) and x.exc is None for b in h.body for x in ast.walk(b))
+        if not reraises:
+            rep.violated('R19.1', fn, 'except %s' % (norm(h.type) if h.type is not None else ''),
+                         'a handler in front of the failonerror handler catches %s raised anywhere in the try block, i.e. '
+                         'also by the user\'s callable, and deals with it outside the policy (%s): such a failure is neither '
+                         'replaced by errorvalue, nor raised, nor delivered inline' % (
+                             norm(h.type) if h.type is not None else 'everything',
+                             '; '.join(norm(b) for b in h.body)[:60]), h)
     bad = False
     # consumers of those results after the try statement, in the same block / else clause
     later = list(tr.orelse) + list(tr.finalbody)
